@@ -2,7 +2,12 @@ prop("C12",
      theorems=["NeoFS.FSTree.crash_safe", "NeoFS.FSTree.crash_safe_at", "NeoFS.FSTree.acked_survive", "NeoFS.FSTree.tmp_invisible",
                "NeoFS.FSTree.delete_crash_atomic", "NeoFS.FSTree.crash_freezes_sbWrite", "NeoFS.FSTree.crash_freezes_writeFile",
                "NeoFS.FSTree.crash_freezes_intSync", "NeoFS.FSTree.faults_fail_cleanly", "NeoFS.FSTree.ok_means_readable",
-               "NeoFS.FSTree.generic_put_safe"],
+               "NeoFS.FSTree.generic_put_safe",
+               "NeoFS.FSTree.api_crash_safe", "NeoFS.FSTree.api_acked_survive", "NeoFS.FSTree.reput_keeps_object",
+               "NeoFS.FSTree.crash_images_safe", "NeoFS.FSTree.api_step_safe",
+               "NeoFS.FSTree.generic_writers_safe", "NeoFS.FSTree.two_writers_one_address", "NeoFS.FSTree.gsched_inv",
+               "NeoFS.FSTree.gstep_ginv", "NeoFS.FSTree.machine_eq_genericWrite", "NeoFS.FSTree.put_generic_is_machine",
+               "NeoFS.FSTree.generic_put_keeps_visible"],
      engines=[dict(name="fstree", quick=1, thorough=1)],
      claim="Process-crash model: the oracle value `crash p` at system call n stops the process there (a write in progress may have "
            "appended p bytes); the rest of the run does nothing to names and bytes (crash_freezes_*); recovery drops descriptors, "
@@ -14,15 +19,35 @@ prop("C12",
            "everything readable before a later write's crash stays readable with identical bytes (acked_survive, with "
            "ok_means_readable: a Put that returned ok is readable); leftover temporary names are never looked at by any reader "
            "(tmp_invisible); a delete is a single unlink (delete_crash_atomic). Tied to the real code by running the op in a child "
-           "process that exits at a chosen system call, then reopening the tree in the parent.",
+           "process that exits at a chosen system call, then reopening the tree in the parent. "
+           "CALL SEQUENCES KILLED AT ANY SYSTEM CALL (process-kill consistency: what the kernel has taken - the page cache - "
+           "survives; no power loss): runApi keeps one system-call index over Put / PutBatch / Delete calls of one process, so "
+           "crashAt n is a kill between ANY two system calls, also where the code has no hook point; for every oracle every "
+           "visible address reads exactly one offered payload (api_crash_safe, crash_images_safe) and whatever was readable - "
+           "acknowledged long before - stays readable with identical bytes through later calls, puts of the SAME address "
+           "included, wherever they are killed (api_acked_survive, reput_keeps_object: the writer never takes an existing name "
+           "away). Tied to the real code by op kseq: a child process runs the calls on one OS thread under "
+           "strace -f -e inject=<call>:error=EIO:signal=SIGKILL:when=<k> once for every file system call of the sequence. "
+           "CONCURRENT CALLERS OF THE PORTABLE WRITER: gstep is one system call of one caller (open p#i O_EXCL / write / close / "
+           "rename), gsched an arbitrary interleaving of any number of callers; for every oracle, schedule and prefix (= stop "
+           "point) every visible address reads exactly one complete offered payload, an acknowledged caller's address is "
+           "visible, other addresses read the same, no name disappears (generic_writers_safe, two_writers_one_address; "
+           "invariant GInv: a temporary file is owned by the one caller that created it, no object name points to it, it is "
+           "renamed only when it holds the whole payload); one caller alone is exactly genericWrite (machine_eq_genericWrite), hence a Put of the portable writer killed anywhere keeps every visible address visible with a complete offered payload (generic_put_keeps_visible: it replaces, it never takes away). "
+           "Tied to the real code by op gsched: callers parked at the hook points after open / write / close of the portable "
+           "writer, released one system call at a time; after every step the directory image is checked.",
      note="Process crash only: no power loss, no reordering of buffered writes by the kernel, fdatasync has no modelled effect. "
           "Proved for the O_TMPFILE writer (single file, combined batch, PutBatch, schedules of them) and Delete; for the portable "
           "writer a single Put is proved safe at every crash point (generic_put_safe holds for every oracle: p#i created / written / "
           "renamed - the name changes only by the rename, after the payload is complete) and its crash points are exercised by the "
           "same run (every fourth history). "
           "Crash points are the boundaries after each system call (verifhook.Point after the call); a stop inside a writev with a "
-          "torn record is covered by the theorem (parameter p) but only exercised at p = 0 / full.",
-     rule="8 (quick) / 600 (thorough) seeded histories over 8 addresses (count limit 2/3/128, size limit 400/100000). Each history "
+          "torn record is covered by the theorem (parameter p) but only exercised at p = 0 / full. "
+          "kseq kills BEFORE a system call executes (error injection + SIGKILL), on the thread that runs the calls; the batch "
+          "timer's close on another thread is not a kill point of its own (it changes no name and no byte). gsched images are "
+          "copies of the directory taken while every caller is parked (no call in flight), plus real process exits (c=N). "
+          "PutBatch of the portable writer in kseq is exercised and compared with the model, its theorem is the single Put's.",
+     rule="12 (quick) / 720 (thorough) seeded histories of six kinds. Kinds 0-3 over 8 addresses (count limit 2/3/128, size limit 400/100000). Each history "
           "enumerates EVERY stop point of one kind of write in turn - kind = combined put / single-file put (above the threshold) / "
           "PutBatch of three / put on the portable writer: the op runs in a child process that exits at system call c for every "
           "c = 0..5 (puts: before open, after open, write, link or close, close or rename, completed) or c = 0..9 (batch: open, "
@@ -30,7 +55,16 @@ prop("C12",
           "stop points, then 3..7 random ops of which a quarter crash at call 0..8. The parent reopens the tree, runs CleanUpTmp "
           "and dumps every object; model: the same op under the oracle crashAt, then recover. Oracle: every listed object has "
           "exactly its address's bytes; every acknowledged, not deleted object is still listed. non-trivial = history > 4 ops; "
-          "distinct by history",
+          "distinct by history. Kind 4 (kseq): four call sequences per history on a fresh tree each - an object put again "
+          "(single-file and combined writer), put again inside a PutBatch, deleted and put again, put with another stored form, "
+          "and a random sequence over 2-3 addresses - killed before EVERY file system call of the sequence (open/openat, "
+          "write/writev/pwrite64, link/linkat, unlink/unlinkat, rename*, close, fdatasync/fsync, (f)truncate, mkdir*) in turn, "
+          "6-30 kills per sequence, every second such history on the portable writer; after each kill: reopen, CleanUpTmp, every "
+          "acknowledged and not deleted object listed by Iterate and returned by GetBytes with exactly its bytes, every listed "
+          "object exactly its address's bytes, Iterate = GetBytes; the set of distinct post-kill dumps equals the model's "
+          "crashImages. Kind 5 (gsched): portable writer; caller 1 entering between any two system calls of caller 0 "
+          "(4 schedules), then 4-6 random interleavings of two or three callers of one address (a third of another), a third "
+          "of them ending in a real process exit after a random number of steps; the image after EVERY step is checked",
      trusted=["bytes handed to the kernel and linked names survive a process exit (os.Exit in the child)",
               "Model/FSTree.lean writers are a hand transcription, tied by the correspondence run"],
      assumptions=["process crash, not power loss", "linkat/rename/unlink are atomic"])
